@@ -110,4 +110,36 @@ def loops():
                 p.while_(p.true(), p.block([p.local(["c"], [p.id("n")]),
                                             p.assign([p.index(p.id("fs"), p.num(1))], [p.func([], p.block([p.ret([p.id("c")])]))])] + tick(p)))]
     mk("closure_creating_loop", closure_loop)
+
+    # ---- the host replaces the attached context while the script runs (gswap): only the
+    # new context becomes done; loops that were already running must notice it too
+    swap = lambda p: p.callstat(p.call(p.id("gswap"), []))
+    mk("swap_then_while_true", lambda p: [p.local(["n"], [p.num(0)]), swap(p), p.while_(p.true(), p.block(tick(p)))])
+
+    def swap_in_callee(p):      # the main chunk's loop was entered long before the replacement
+        f = p.func([], p.block([swap(p)] + tick(p)))
+        return [p.local(["n"], [p.num(0)]), p.localfunction("f", f),
+                p.fornum("i", p.num(1), p.num(3), 0, p.block([p.callstat(p.call(p.id("f"), []))])),
+                p.while_(p.true(), p.block(tick(p)))]
+    mk("swap_in_callee_then_loop", swap_in_callee)
+
+    def swap_in_pcall_retry(p):
+        f = p.func([], p.block([swap(p)] + tick(p) + [p.callstat(p.call(p.id("error"), [p.str("again")]))]))
+        return [p.local(["n"], [p.num(0)]), p.localfunction("f", f),
+                p.while_(p.true(), p.block([p.local(["ok", "e"], [p.call(p.id("pcall"), [p.id("f")])])] + tick(p, every=5)))]
+    mk("swap_in_pcall_retry_loop", swap_in_pcall_retry)
+
+    def swap_then_coroutines(p):
+        body = p.func([], p.block([p.while_(p.true(), p.block([p.assign([p.id("n")], [p.bin("+", p.id("n"), p.num(1))]),
+                                                               p.callstat(p.call(_co(p, "yield"), [p.id("n")]))]))]))
+        return [p.local(["n"], [p.num(0)]), swap(p), p.local(["co"], [p.call(_co(p, "create"), [body])]),
+                p.while_(p.true(), p.block([p.local(["ok", "v"], [p.call(_co(p, "resume"), [p.id("co")])]),
+                                            p.if_([p.bin("==", p.bin("%", p.id("v"), p.num(2)), p.num(0))], [p.block([p.emit([p.id("ok"), p.id("v")])])])]))]
+    mk("swap_then_coroutine_pingpong", swap_then_coroutines)
+
+    def swap_and_host_cancel(p):    # replaced and cancelled by the host inside a callee; the caller's loop must stop
+        f = p.func([], p.block([swap(p), p.callstat(p.call(p.id("gcancel"), []))]))
+        return [p.local(["n"], [p.num(0)]), p.localfunction("f", f), p.emit([p.str("start")]),
+                p.callstat(p.call(p.id("pcall"), [p.id("f")])), p.while_(p.true(), p.block(tick(p)))]
+    mk("swap_and_host_cancel_in_callee", swap_and_host_cancel)
     return out
